@@ -740,9 +740,14 @@ def task(t, res):
             seq = [x for k in range(max(map(len, per))) for x in (p[k] for p in per if k < len(p))]
             if t["order"] == "reversed":
                 seq = seq[::-1]
+            sub = type(res)()
             for (r, c, b) in seq:
-                full_graph(G(r, c, b), res, "half")
+                full_graph(G(r, c, b), sub, "half")
                 res.count("mixed_sequence_graphs")
+            res.evaluations += sub.evaluations
+            res.distinct |= sub.distinct
+            for f in sub.fails:  # own keys: must not be shadowed by a same-key failure of an ordinary task in a poisoned worker
+                res.fail(f["key"] + "|in_mixed_shape_sequence", f"shapes {t['group']} interleaved ({t['order']}) in one fresh interpreter: " + f["what"], f["replay"])
         elif kind == "small":
             for r, c in t["shapes"]:
                 for bits in range(R.n_graphs(r, c)):
